@@ -112,13 +112,15 @@ def universe_ctx():
     """(universe tags, equality matrix from the real ==, PredictedTag table). Built once per process."""
     global _CTX
     if _CTX is None:
-        tA = _term("A")
+        # the universe's main term carries two extra attributes; its equal twin (member 4) was given them in the other order
+        tA = data.Term(label="a", name="n:a", definition="d", foo="bar", baz=1)
+        tA_twin = data.Term(label="a", name="n:a", definition="d", baz=1.0, foo="bar")
         uni = [
             data.Tag(term=tA, value=VX),
             data.Tag(term=tA, value=VY),
             data.Tag(term=_term("A2"), value=VX),
             data.Tag(term=_term("A3"), value=VX),
-            data.Tag(term=_term("A"), value=VX),
+            data.Tag(term=tA_twin, value=VX),
             data.Tag(term=_term("A4"), value=VX),
         ]
         eq = [[bool(a == b) for b in uni] for a in uni]
@@ -494,7 +496,9 @@ SPECS = {
         "cls": data.Feature,
         "base": {"term": lambda: _term("A"), "value": lambda: 1.0},
         "alts": {"term": [("A2", lambda: _term("A2")), ("A3", lambda: _term("A3")), ("A4", lambda: _term("A4"))],
-                 "value": [("2", lambda: 2.0), ("int1", lambda: 1), ("zero", lambda: 0.0), ("negzero", lambda: -0.0)]},
+                 # nan: a fresh NaN object per build (two such features are NOT equal: NaN != NaN), so whatever equality says, hashes follow
+                 "value": [("2", lambda: 2.0), ("int1", lambda: 1), ("zero", lambda: 0.0), ("negzero", lambda: -0.0),
+                           ("nan", lambda: float("nan"))]},
     },
     "Note": {
         "cls": data.Note,
